@@ -331,15 +331,48 @@ Section Pairing.
     unfold recv_into, rtext. cbn [fst snd]. rewrite H1, Hdec, Hok. reflexivity.
   Qed.
 
+  Lemma cl_bad_utf8_inv : forall c ls,
+    bad_utf8 (c, ls) = true ->
+    code3 c /\ ls <> [] /\ forallb no_lf ls = true /\ utf8_dec (join CRLF ls) = None.
+  Proof.
+    intros c ls H. unfold bad_utf8 in H.
+    apply andb_prop in H. destruct H as [H E]. apply andb_prop in H. destruct H as [H D].
+    apply andb_prop in H. destruct H as [H C]. apply andb_prop in H. destruct H as [A B].
+    split; [apply cl_code_ok_code3; assumption|].
+    split; [destruct ls; [discriminate|congruence]|]. split; [assumption|].
+    destruct (utf8_dec (join CRLF ls)); [discriminate|reflexivity].
+  Qed.
+
+  (* BadReply for an undecodable reply is raised AFTER the reply has been consumed:
+     what is left is exactly the rest of the stream *)
+  Lemma cl_recv_into_bad : forall old r t buf chunks,
+    bad_utf8 r = true -> Forall nonempty chunks ->
+    (buf ++ concat chunks = wire1 r ++ t)%list ->
+    exists buf' ch',
+      recv_into udigit uspace old buf chunks = FBadReply buf' ch' /\
+      (buf' ++ concat ch' = t)%list /\ Forall nonempty ch'.
+  Proof.
+    intros old [c ls] t buf chunks Hb Hch Hs.
+    destruct (cl_bad_utf8_inv c ls Hb) as (Hc3 & Hne & Hlf & Hdec).
+    destruct (cl_recv_reply_wire c ls t buf chunks Hc3 Hne Hlf Hch Hs) as (buf' & ch' & H1 & H2 & H3).
+    exists buf', ch'. split; [|split; assumption].
+    unfold recv_into. rewrite H1, Hdec. reflexivity.
+  Qed.
+
   Variable script : list sreply.
   Variable extra : bytes.
-  Hypothesis Hwf : forallb wf_reply script = true.
+  (* every scripted reply is either well-formed or well-formed-but-not-UTF-8 *)
+  Hypothesis Hok : forallb script_ok script = true.
 
   Definition scr (j : nat) : sreply := nth j script dflt.
+  Definition good (j : nat) : bool := wf_reply (scr j).
 
-  Lemma cl_scr_wf : forall j, j < length script -> wf_reply (scr j) = true.
+  Lemma cl_scr_ok : forall j, j < length script ->
+    good j = true \/ (good j = false /\ bad_utf8 (scr j) = true).
   Proof.
-    intros j H. rewrite forallb_forall in Hwf. apply Hwf. apply nth_In. exact H.
+    intros j H. rewrite forallb_forall in Hok.
+    specialize (Hok (scr j) (nth_In _ _ H)). unfold script_ok in Hok. unfold good.
+    destruct (wf_reply (scr j)); [left; reflexivity|right; split; [reflexivity|exact Hok]].
   Qed.
 
   Definition obj_at (st : cstate) (j : nat) : robj := nth j (s_objs st) dummy_obj.
@@ -352,73 +385,101 @@ Section Pairing.
     wire (skipn f script) = (wire1 (scr f) ++ wire (skipn (S f) script))%list.
   Proof. intros f H. rewrite (cl_skipn_nth _ script f dflt H). reflexivity. Qed.
 
-  (* the loop of _flush_pipeline on a well-formed stream: every owed slot, in
-     order, receives the next scripted reply *)
-  Lemma cl_flush_loop_ok : forall k f st,
+  (* the loop of _flush_pipeline: the owed slots, in order, receive the next scripted
+     replies; an undecodable reply costs its own slot a BadReply - the slot is popped,
+     the reply consumed - and the loop stops there (g = replies consumed) *)
+  Lemma cl_flush_loop_gen : forall k f st,
     f + k <= length script ->
     f + k <= length (s_objs st) ->
     (forall j, f <= j < f + k -> r_esc (o_r (obj_at st j)) = esc0 (o_kind (obj_at st j))) ->
     (s_rbuf st ++ concat (s_chunks st) = wire (skipn f script) ++ extra)%list ->
     Forall nonempty (s_chunks st) ->
-    exists st',
-      flush_loop udigit uspace (seq f k) st = (st', None) /\
-      s_queue st' = []%list /\ s_lmtp st' = s_lmtp st /\ s_sendbuf st' = s_sendbuf st /\
+    exists st' e g,
+      flush_loop udigit uspace (seq f k) st = (st', e) /\ g <= k /\
+      s_queue st' = seq (f + g) (k - g) /\ s_lmtp st' = s_lmtp st /\ s_sendbuf st' = s_sendbuf st /\
       s_sent st' = s_sent st /\ s_exts st' = s_exts st /\ s_rcpttos st' = s_rcpttos st /\
       s_dead st' = s_dead st /\
-      (s_rbuf st' ++ concat (s_chunks st') = wire (skipn (f + k) script) ++ extra)%list /\
+      (s_rbuf st' ++ concat (s_chunks st') = wire (skipn (f + g) script) ++ extra)%list /\
       Forall nonempty (s_chunks st') /\
       length (s_objs st') = length (s_objs st) /\
-      forall j, obj_at st' j = if in_range f k j then fill_obj (obj_at st j) (scr j) else obj_at st j.
+      (forall j, obj_at st' j = if in_range f g j && good j then fill_obj (obj_at st j) (scr j) else obj_at st j) /\
+      ((e = None /\ g = k /\ forall j, f <= j < f + k -> good j = true) \/
+       (e = Some XBadReply /\ 0 < g /\ good (f + g - 1) = false)).
   Proof.
     induction k as [|k IH]; intros f st Hs Hn Hesc Hstream Hch.
-    - exists (set_queue st []%list). cbn [seq flush_loop]. rewrite Nat.add_0_r.
-      repeat (split; [first [reflexivity | assumption]|]).
-      intros j. unfold in_range.
-      replace ((f <=? j) && (j <? f + 0)) with false by lia. reflexivity.
+    - exists (set_queue st []%list), None, 0. cbn [seq flush_loop]. rewrite Nat.add_0_r.
+      repeat (split; [first [reflexivity | assumption | lia]|]).
+      split.
+      + intros j. unfold in_range. replace ((f <=? j) && (j <? f + 0)) with false by lia. reflexivity.
+      + left. repeat split. intros j Hj. lia.
     - cbn [seq flush_loop].
       set (st0 := set_queue st (seq (S f) k)).
       assert (Hf : f < length script) by lia.
       rewrite (cl_wire_skipn f Hf), <- app_assoc in Hstream.
-      destruct (cl_recv_into_wire (o_r (get_obj st0 f)) (scr f) _ (s_rbuf st0) (s_chunks st0)
-                  (cl_scr_wf f Hf) Hch Hstream) as (buf' & ch' & Hrecv & Hrest & Hch').
-      rewrite Hrecv. clear Hrecv.
-      set (r := set_message udigit uspace (mkReply (fst (scr f)) (r_esc (o_r (get_obj st0 f))) []%list) (rtext (scr f))).
-      set (st2 := if is_error r then set_lasterr (set_obj (set_recv st0 buf' ch') f r) (Some f)
-                  else set_obj (set_recv st0 buf' ch') f r).
-      assert (E2 : s_objs st2 = upd (s_objs st) f (fun o => mkObj (o_cmd o) (o_kind o) r) /\
-                   s_rbuf st2 = buf' /\ s_chunks st2 = ch' /\ s_lmtp st2 = s_lmtp st /\
-                   s_sendbuf st2 = s_sendbuf st /\ s_sent st2 = s_sent st /\ s_exts st2 = s_exts st /\
-                   s_rcpttos st2 = s_rcpttos st /\ s_dead st2 = s_dead st).
-      { subst st2. destruct (is_error r); cbn; repeat split; reflexivity. }
-      destruct E2 as (Eo & Eb & Ec & El & Esb & Est & Ee & Er & Ed).
-      assert (Hobj2 : forall j, obj_at st2 j =
-                 if Nat.eqb j f then mkObj (o_cmd (obj_at st f)) (o_kind (obj_at st f)) r else obj_at st j).
-      { intros j. unfold obj_at. rewrite Eo. destruct (Nat.eqb j f) eqn:E.
-        - apply Nat.eqb_eq in E. subst j. rewrite cl_nth_upd_eq by lia. reflexivity.
-        - apply Nat.eqb_neq in E. rewrite cl_nth_upd_neq by lia. reflexivity. }
-      destruct (IH (S f) st2) as (st' & Hfl & Hq & Hl & Hsb & Hst & He & Hr & Hd & Hstr & Hc & Hlen & Hobjs).
-      + lia.
-      + rewrite Eo, cl_upd_length. lia.
-      + intros j Hj. rewrite Hobj2. replace (Nat.eqb j f) with false by (symmetry; apply Nat.eqb_neq; lia).
-        apply Hesc. lia.
-      + rewrite Eb, Ec. exact Hrest.
-      + rewrite Ec. exact Hch'.
-      + exists st'. split; [exact Hfl|].
-        rewrite Hl, Hsb, Hst, He, Hr, Hd, Hlen, El, Esb, Est, Ee, Er, Ed, Eo, cl_upd_length.
-        repeat (split; [first [reflexivity | assumption]|]).
-        split; [replace (f + S k) with (S f + k) by lia; exact Hstr|].
-        split; [exact Hc|]. split; [reflexivity|].
-        intros j. rewrite Hobjs, Hobj2. unfold in_range.
-        destruct (Nat.eqb j f) eqn:E.
-        * apply Nat.eqb_eq in E. subst j.
-          replace ((S f <=? f) && (f <? S f + k)) with false by lia.
-          replace ((f <=? f) && (f <? f + S k)) with true by lia.
-          unfold fill_obj, raw_filled. f_equal. subst r.
-          change (get_obj st0 f) with (obj_at st f). rewrite (Hesc f) by lia. reflexivity.
-        * apply Nat.eqb_neq in E.
-          replace ((S f <=? j) && (j <? S f + k)) with ((f <=? j) && (j <? f + S k)) by lia.
-          destruct ((f <=? j) && (j <? f + S k)); reflexivity.
+      destruct (cl_scr_ok f Hf) as [Hg|[Hng Hbad]].
+      + destruct (cl_recv_into_wire (o_r (get_obj st0 f)) (scr f) _ (s_rbuf st0) (s_chunks st0)
+                    Hg Hch Hstream) as (buf' & ch' & Hrecv & Hrest & Hch').
+        rewrite Hrecv. clear Hrecv.
+        set (r := set_message udigit uspace (mkReply (fst (scr f)) (r_esc (o_r (get_obj st0 f))) []%list) (rtext (scr f))).
+        set (st2 := if is_error r then set_lasterr (set_obj (set_recv st0 buf' ch') f r) (Some f)
+                    else set_obj (set_recv st0 buf' ch') f r).
+        assert (E2 : s_objs st2 = upd (s_objs st) f (fun o => mkObj (o_cmd o) (o_kind o) r) /\
+                     s_rbuf st2 = buf' /\ s_chunks st2 = ch' /\ s_lmtp st2 = s_lmtp st /\
+                     s_sendbuf st2 = s_sendbuf st /\ s_sent st2 = s_sent st /\ s_exts st2 = s_exts st /\
+                     s_rcpttos st2 = s_rcpttos st /\ s_dead st2 = s_dead st).
+        { subst st2. destruct (is_error r); cbn; repeat split; reflexivity. }
+        destruct E2 as (Eo & Eb & Ec & El & Esb & Est & Ee & Er & Ed).
+        assert (Hobj2 : forall j, obj_at st2 j =
+                   if Nat.eqb j f then mkObj (o_cmd (obj_at st f)) (o_kind (obj_at st f)) r else obj_at st j).
+        { intros j. unfold obj_at. rewrite Eo. destruct (Nat.eqb j f) eqn:E.
+          - apply Nat.eqb_eq in E. subst j. rewrite cl_nth_upd_eq by lia. reflexivity.
+          - apply Nat.eqb_neq in E. rewrite cl_nth_upd_neq by lia. reflexivity. }
+        destruct (IH (S f) st2) as (st' & e & g & Hfl & Hgk & Hq & Hl & Hsb & Hst & He & Hr & Hd & Hstr & Hc & Hlen & Hobjs & Hout).
+        * lia.
+        * rewrite Eo, cl_upd_length. lia.
+        * intros j Hj. rewrite Hobj2. replace (Nat.eqb j f) with false by (symmetry; apply Nat.eqb_neq; lia).
+          apply Hesc. lia.
+        * rewrite Eb, Ec. exact Hrest.
+        * rewrite Ec. exact Hch'.
+        * exists st', e, (S g). split; [exact Hfl|]. split; [lia|].
+          rewrite Hl, Hsb, Hst, He, Hr, Hd, Hlen, El, Esb, Est, Ee, Er, Ed, Eo, cl_upd_length.
+          split; [rewrite Hq; f_equal; lia|].
+          repeat (split; [reflexivity|]).
+          split; [replace (f + S g) with (S f + g) by lia; exact Hstr|].
+          split; [exact Hc|]. split; [reflexivity|].
+          split.
+          { intros j. rewrite Hobjs, Hobj2. unfold in_range.
+            destruct (Nat.eqb j f) eqn:E.
+            - apply Nat.eqb_eq in E. subst j.
+              replace ((S f <=? f) && (f <? S f + g)) with false by lia.
+              replace ((f <=? f) && (f <? f + S g)) with true by lia.
+              cbn [andb]. unfold good in Hg |- *. rewrite Hg.
+              unfold fill_obj, raw_filled. f_equal. subst r.
+              change (get_obj st0 f) with (obj_at st f). rewrite (Hesc f) by lia. reflexivity.
+            - apply Nat.eqb_neq in E.
+              replace ((S f <=? j) && (j <? S f + g)) with ((f <=? j) && (j <? f + S g)) by lia.
+              destruct ((f <=? j) && (j <? f + S g) && good j); reflexivity. }
+          destruct Hout as [(-> & -> & Hall)|(-> & Hpos & Hbadj)].
+          { left. repeat split. intros j Hj. destruct (Nat.eq_dec j f) as [->|Hne]; [exact Hg|]. apply Hall. lia. }
+          { right. split; [reflexivity|]. split; [lia|].
+            replace (f + S g - 1) with (S f + g - 1) by lia. exact Hbadj. }
+      + destruct (cl_recv_into_bad (o_r (get_obj st0 f)) (scr f) _ (s_rbuf st0) (s_chunks st0)
+                    Hbad Hch Hstream) as (buf' & ch' & Hrecv & Hrest & Hch').
+        rewrite Hrecv. clear Hrecv.
+        exists (set_recv st0 buf' ch'), (Some XBadReply), 1.
+        split; [reflexivity|]. split; [lia|].
+        split; [cbn; f_equal; lia|].
+        repeat (split; [reflexivity|]).
+        split; [cbn [s_rbuf s_chunks set_recv]; replace (f + 1) with (S f) by lia; exact Hrest|].
+        split; [exact Hch'|]. split; [reflexivity|].
+        split.
+        { intros j. change (obj_at (set_recv st0 buf' ch') j) with (obj_at st j). unfold in_range.
+          destruct (Nat.eq_dec j f) as [->|Hne].
+          - rewrite Hng, andb_false_r. reflexivity.
+          - replace ((f <=? j) && (j <? f + 1)) with false by lia. reflexivity. }
+        right. split; [reflexivity|]. split; [lia|]. replace (f + 1 - 1) with f by lia. exact Hng.
   Qed.
+
 
   (* ---------------------------------------------------------------- *)
   (* unconditional facts: the heap only grows                          *)
@@ -455,7 +516,7 @@ Section Pairing.
   Lemma cl_hello_post_len : forall id st,
     length (s_objs (hello_post udigit uspace id st)) = length (s_objs st).
   Proof.
-    intros. unfold hello_post. destruct (beqb _ C250); [|reflexivity].
+    intros. unfold hello_post. destruct (beqb _ C250); [|cbn; apply cl_upd_length].
     destruct (parse_string uspace _) as [hdr exts].
     destruct (s_lmtp st); cbn; apply cl_upd_length.
   Qed.
@@ -536,18 +597,16 @@ Section Pairing.
     destruct (run udigit uspace ops st1) as [st2 rs]. cbn [fst] in *. lia.
   Qed.
 
+
   (* ---------------------------------------------------------------- *)
   (* the invariant                                                     *)
 
-  Definition opt_is (hp : option nat) (j : nat) : bool :=
-    match hp with Some i => Nat.eqb i j | None => false end.
-
   Definition RCPT : bytes := bs "RCPT".
 
-  (* f = number of replies read so far.  hp = Some i: object i is the EHLO/LHLO
-     slot of the call in progress (its message has not been replaced by the
-     header yet). *)
-  Record InvX (hp : option nat) (st : cstate) (f : nat) : Prop := mkInv {
+  (* f = number of scripted replies consumed so far.  Object j < f holds the server's
+     j-th reply, unless that reply was undecodable: then its slot was popped and left
+     empty (the call that was flushing raised BadReply). *)
+  Record Inv (st : cstate) (f : nat) : Prop := mkInv {
     I_dead : s_dead st = false;
     I_queue : s_queue st = seq f (length (s_objs st) - f);
     I_fle : f <= length (s_objs st);
@@ -556,19 +615,14 @@ Section Pairing.
     I_chunks : Forall nonempty (s_chunks st);
     I_filled : forall j, j < f ->
         o_r (obj_at st j) =
-          if opt_is hp j then raw_filled udigit uspace (o_kind (obj_at st j)) (scr j)
-          else filled udigit uspace (o_kind (obj_at st j)) (scr j);
+          if good j then filled udigit uspace (o_kind (obj_at st j)) (scr j)
+          else unfilled (o_kind (obj_at st j));
     I_unfilled : forall j, f <= j < length (s_objs st) ->
-        o_r (obj_at st j) = unfilled (o_kind (obj_at st j)) /\
-        (o_kind (obj_at st j) = KHello -> hp = Some j);
-    I_hp : forall i, hp = Some i -> i < length (s_objs st) /\ o_kind (obj_at st i) = KHello;
+        o_r (obj_at st j) = unfilled (o_kind (obj_at st j)) /\ o_kind (obj_at st j) <> KHello;
     I_rcpt : Forall (fun p => snd p < length (s_objs st) /\
                               o_kind (obj_at st (snd p)) = KPlain /\
                               o_cmd (obj_at st (snd p)) = RCPT) (s_rcpttos st)
   }.
-
-  Definition hp_of (k : kind) (n : nat) : option nat :=
-    match k with KHello => Some n | _ => None end.
 
   Lemma cl_filled_raw : forall k r, k <> KHello -> filled udigit uspace k r = raw_filled udigit uspace k r.
   Proof. intros k r H. destruct k; try reflexivity. congruence. Qed.
@@ -586,59 +640,50 @@ Section Pairing.
 
   (* queueing one more slot *)
   Lemma cl_new_slot_inv : forall cmd k st f,
-    InvX None st f ->
-    InvX (hp_of k (length (s_objs st))) (fst (new_slot cmd k st)) f.
+    k <> KHello -> Inv st f -> Inv (fst (new_slot cmd k st)) f.
   Proof.
-    intros cmd k st f I. set (n := length (s_objs st)).
+    intros cmd k st f Hk I. set (n := length (s_objs st)).
     set (o := mkObj cmd k (unfilled k)).
     assert (Eo : s_objs (fst (new_slot cmd k st)) = (s_objs st ++ [o])%list) by reflexivity.
     assert (Elen : length (s_objs (fst (new_slot cmd k st))) = S n).
     { rewrite Eo, app_length. cbn. lia. }
-    destruct I as [Id Iq Ifl Ifs Is Ic Ifi Iun Ihp Ir].
+    destruct I as [Id Iq Ifl Ifs Is Ic Ifi Iun Ir].
     constructor; try assumption.
     - rewrite Elen. change (s_queue (fst (new_slot cmd k st))) with (s_queue st ++ [n])%list. rewrite Iq.
       replace (S n - f) with (S (n - f)) by (fold n in Ifl; lia).
       rewrite cl_seq_snoc. fold n. replace (f + (n - f)) with n by (fold n in Ifl; lia). reflexivity.
     - rewrite Elen. fold n in Ifl. lia.
-    - intros j Hj. rewrite (cl_obj_at_app_l _ st o j Eo) by (fold n in Ifl |- *; lia).
-      rewrite (Ifi j Hj). cbn [opt_is].
-      replace (opt_is (hp_of k n) j) with false; [reflexivity|].
-      destruct k; cbn; try reflexivity. symmetry. apply Nat.eqb_neq. fold n in Ifl. lia.
+    - intros j Hj. rewrite (cl_obj_at_app_l _ st o j Eo) by (fold n in Ifl |- *; lia). apply Ifi. exact Hj.
     - intros j Hj. rewrite Elen in Hj.
       destruct (Nat.eq_dec j n) as [->|Hne].
-      + unfold n. rewrite (cl_obj_at_app_r _ st o Eo). cbn. split; [reflexivity|].
-        intros ->. reflexivity.
-      + rewrite (cl_obj_at_app_l _ st o j Eo) by (fold n; lia).
-        destruct (Iun j) as [H1 H2]; [fold n; lia|]. split; [exact H1|].
-        intros Hk. specialize (H2 Hk). discriminate.
-    - intros i Hi. rewrite Elen. destruct k; try discriminate. cbn in Hi. inversion Hi; subst i.
-      split; [fold n; lia|]. unfold n. rewrite (cl_obj_at_app_r _ st o Eo). reflexivity.
+      + unfold n. rewrite (cl_obj_at_app_r _ st o Eo). cbn. split; [reflexivity|exact Hk].
+      + rewrite (cl_obj_at_app_l _ st o j Eo) by (fold n; lia). apply Iun. fold n. lia.
     - rewrite Elen. change (s_rcpttos (fst (new_slot cmd k st))) with (s_rcpttos st).
       eapply Forall_impl; [|exact Ir]. intros p (H1 & H2 & H3). fold n in H1.
       rewrite (cl_obj_at_app_l _ st o (snd p) Eo) by (fold n; lia). repeat split; try assumption. lia.
   Qed.
 
   (* states that differ only in fields the invariant does not read *)
-  Lemma cl_inv_same : forall hp st st' f,
-    InvX hp st f ->
+  Lemma cl_inv_same : forall st st' f,
+    Inv st f ->
     s_dead st' = s_dead st -> s_queue st' = s_queue st -> s_objs st' = s_objs st ->
     s_rbuf st' = s_rbuf st -> s_chunks st' = s_chunks st -> s_rcpttos st' = s_rcpttos st ->
-    InvX hp st' f.
+    Inv st' f.
   Proof.
-    intros hp st st' f [Id Iq Ifl Ifs Is Ic Ifi Iun Ihp Ir] E1 E2 E3 E4 E5 E6.
+    intros st st' f [Id Iq Ifl Ifs Is Ic Ifi Iun Ir] E1 E2 E3 E4 E5 E6.
     constructor; unfold obj_at in *; rewrite ?E1, ?E2, ?E3, ?E4, ?E5, ?E6; assumption.
   Qed.
 
-  Lemma cl_inv_clear_rcpttos : forall hp st f, InvX hp st f -> InvX hp (set_rcpttos st []%list) f.
+  Lemma cl_inv_clear_rcpttos : forall st f, Inv st f -> Inv (set_rcpttos st []%list) f.
   Proof.
-    intros hp st f [Id Iq Ifl Ifs Is Ic Ifi Iun Ihp Ir].
+    intros st f [Id Iq Ifl Ifs Is Ic Ifi Iun Ir].
     constructor; try assumption. constructor.
   Qed.
 
-  Lemma cl_buffered_send_inv : forall hp b st f, InvX hp st f -> InvX hp (buffered_send b st) f.
+  Lemma cl_buffered_send_inv : forall b st f, Inv st f -> Inv (buffered_send b st) f.
   Proof. intros. eapply cl_inv_same; eauto. Qed.
 
-  Lemma cl_flush_send_inv : forall hp st f, InvX hp st f -> InvX hp (flush_send st) f.
+  Lemma cl_flush_send_inv : forall st f, Inv st f -> Inv (flush_send st) f.
   Proof.
     intros. eapply cl_inv_same; eauto; unfold flush_send; destruct (s_sendbuf st); reflexivity.
   Qed.
@@ -646,17 +691,22 @@ Section Pairing.
   Lemma cl_in_range_true : forall f k j, in_range f k j = true <-> f <= j < f + k.
   Proof. intros. unfold in_range. lia. Qed.
 
-  (* _flush_pipeline when the server has scripted a reply for every slot *)
-  Lemma cl_flush_inv : forall hp st f,
-    InvX hp st f -> length (s_objs st) <= length script ->
-    exists st',
-      flush udigit uspace st = (st', None) /\
-      InvX hp st' (length (s_objs st)) /\
+  Definition has_bad : Prop := exists j, j < length script /\ good j = false.
+
+  (* _flush_pipeline when the server has scripted a reply for every slot: either every
+     owed reply is read, or the loop stops behind the first undecodable one *)
+  Lemma cl_flush_inv : forall st f,
+    Inv st f -> length (s_objs st) <= length script ->
+    exists st' e f',
+      flush udigit uspace st = (st', e) /\
+      Inv st' f' /\ f <= f' <= length (s_objs st) /\
       length (s_objs st') = length (s_objs st) /\
       s_lmtp st' = s_lmtp st /\ s_exts st' = s_exts st /\ s_rcpttos st' = s_rcpttos st /\
-      (forall j, o_kind (obj_at st' j) = o_kind (obj_at st j) /\ o_cmd (obj_at st' j) = o_cmd (obj_at st j)).
+      (forall j, o_kind (obj_at st' j) = o_kind (obj_at st j) /\ o_cmd (obj_at st' j) = o_cmd (obj_at st j)) /\
+      ((e = None /\ f' = length (s_objs st) /\ forall j, f <= j < length (s_objs st) -> good j = true) \/
+       (e = Some XBadReply /\ f < f' /\ good (f' - 1) = false)).
   Proof.
-    intros hp st f I Hlen. apply cl_flush_send_inv in I.
+    intros st f I Hlen. apply cl_flush_send_inv in I.
     unfold flush. set (st1 := flush_send st) in *.
     assert (E1 : s_objs st1 = s_objs st) by apply cl_flush_send_objs.
     assert (E2 : s_lmtp st1 = s_lmtp st /\ s_exts st1 = s_exts st /\ s_rcpttos st1 = s_rcpttos st).
@@ -665,114 +715,119 @@ Section Pairing.
     assert (Eat : forall j, obj_at st1 j = obj_at st j) by (intros; unfold obj_at; rewrite E1; reflexivity).
     rewrite <- E1 in *. rewrite <- E2, <- E3, <- E4. clearbody st1. clear E1 E2 E3 E4.
     setoid_rewrite <- Eat. clear Eat st.
-    destruct I as [Id Iq Ifl Ifs Is Ic Ifi Iun Ihp Ir].
+    destruct I as [Id Iq Ifl Ifs Is Ic Ifi Iun Ir].
     set (n := length (s_objs st1)) in *.
-    destruct (cl_flush_loop_ok (n - f) f st1) as
-        (st' & Hfl & Hq & Hl & Hsb & Hst & He & Hr & Hd & Hstr & Hc & Hlen' & Hobjs); try assumption.
+    destruct (cl_flush_loop_gen (n - f) f st1) as
+        (st' & e & g & Hfl & Hgk & Hq & Hl & Hsb & Hst & He & Hr & Hd & Hstr & Hc & Hlen' & Hobjs & Hout); try assumption.
     - lia.
     - fold n. lia.
     - intros j Hj. destruct (Iun j) as [H1 _]; [fold n; lia|]. rewrite H1. reflexivity.
-    - replace (f + (n - f)) with n in * by lia.
-      assert (Hkc : forall j, o_kind (obj_at st' j) = o_kind (obj_at st1 j) /\
+    - assert (Hkc : forall j, o_kind (obj_at st' j) = o_kind (obj_at st1 j) /\
                               o_cmd (obj_at st' j) = o_cmd (obj_at st1 j)).
-      { intros j. rewrite Hobjs. destruct (in_range f (n - f) j); split; reflexivity. }
-      exists st'. rewrite Iq. split; [exact Hfl|]. split; [|auto 10].
-      constructor.
-      + rewrite Hd. exact Id.
-      + rewrite Hq, Hlen'. fold n. rewrite Nat.sub_diag. reflexivity.
-      + rewrite Hlen'. fold n. lia.
-      + exact Hlen.
-      + exact Hstr.
-      + exact Hc.
-      + intros j Hj. destruct (Hkc j) as [Hk _]. rewrite Hk. rewrite Hobjs.
-        destruct (in_range f (n - f) j) eqn:Er.
-        * apply cl_in_range_true in Er. cbn [fill_obj o_r].
-          destruct (opt_is hp j) eqn:Eo; [reflexivity|].
-          rewrite cl_filled_raw; [reflexivity|].
-          intros Hk'. destruct (Iun j) as [_ H2]; [fold n; lia|]. specialize (H2 Hk').
-          subst hp. cbn in Eo. rewrite Nat.eqb_refl in Eo. discriminate.
-        * apply Ifi. assert (~ (f <= j < f + (n - f))) by (rewrite <- cl_in_range_true; congruence). lia.
-      + intros j Hj. rewrite Hlen' in Hj. fold n in Hj. lia.
-      + intros i Hi. destruct (Ihp i Hi) as [H1 H2]. rewrite Hlen'. destruct (Hkc i) as [Hk _].
-        rewrite Hk. split; assumption.
-      + rewrite Hr, Hlen'. eapply Forall_impl; [|exact Ir]. intros p (H1 & H2 & H3).
-        destruct (Hkc (snd p)) as [Hk Hcm]. rewrite Hk, Hcm. auto.
+      { intros j. rewrite Hobjs. destruct (in_range f g j && good j); split; reflexivity. }
+      exists st', e, (f + g). rewrite Iq. split; [exact Hfl|].
+      split.
+      { constructor.
+        + rewrite Hd. exact Id.
+        + rewrite Hq, Hlen'. fold n. f_equal. lia.
+        + rewrite Hlen'. fold n. lia.
+        + lia.
+        + exact Hstr.
+        + exact Hc.
+        + intros j Hj. destruct (Hkc j) as [Hk _]. rewrite Hk. rewrite Hobjs.
+          destruct (in_range f g j) eqn:Er; cbn [andb].
+          * apply cl_in_range_true in Er. destruct (good j) eqn:Eg.
+            -- cbn [fill_obj o_r]. rewrite cl_filled_raw; [reflexivity|].
+               destruct (Iun j) as [_ H2]; [fold n; lia|exact H2].
+            -- destruct (Iun j) as [H1 _]; [fold n; lia|exact H1].
+          * apply Ifi. assert (~ (f <= j < f + g)) by (rewrite <- cl_in_range_true; congruence). lia.
+        + intros j Hj. rewrite Hlen' in Hj. fold n in Hj. destruct (Hkc j) as [Hk _]. rewrite Hk, Hobjs.
+          replace (in_range f g j) with false by (symmetry; unfold in_range; lia). cbn [andb].
+          apply Iun. fold n. lia.
+        + rewrite Hr, Hlen'. eapply Forall_impl; [|exact Ir]. intros p (H1 & H2 & H3).
+          destruct (Hkc (snd p)) as [Hk Hcm]. rewrite Hk, Hcm. auto. }
+      split; [lia|]. split; [exact Hlen'|]. split; [exact Hl|]. split; [exact He|]. split; [exact Hr|].
+      split; [exact Hkc|].
+      destruct Hout as [(-> & -> & Hall)|(-> & Hpos & Hb)].
+      + left. split; [reflexivity|]. split; [lia|]. intros j Hj. apply Hall. lia.
+      + right. split; [reflexivity|]. split; [lia|exact Hb].
   Qed.
 
-  (* the tail of ehlo()/lhlo() *)
-  Lemma cl_hello_post_inv : forall id st,
-    InvX (Some id) st (length (s_objs st)) ->
-    InvX None (hello_post udigit uspace id st) (length (s_objs st)).
+  Lemma cl_bad_has_bad : forall j, j < length script -> good j = false -> has_bad.
+  Proof. intros j H1 H2. exists j. auto. Qed.
+
+  (* the tail of ehlo()/lhlo(): the slot becomes a returned hello *)
+  Lemma cl_hello_post_inv : forall id st f,
+    Inv st f -> id < f -> o_kind (obj_at st id) = KNoEsc -> good id = true ->
+    Inv (hello_post udigit uspace id st) f.
   Proof.
-    intros id st I. destruct I as [Id Iq Ifl Ifs Is Ic Ifi Iun Ihp Ir].
+    intros id st f I Hid Hk Hg. destruct I as [Id Iq Ifl Ifs Is Ic Ifi Iun Ir].
     set (n := length (s_objs st)) in *.
-    destruct (Ihp id eq_refl) as [Hid Hk].
-    pose proof (Ifi id Hid) as Hr. cbn [opt_is] in Hr. rewrite Nat.eqb_refl, Hk in Hr.
-    assert (Hother : forall j, j < n -> j <> id ->
-              o_r (obj_at st j) = filled udigit uspace (o_kind (obj_at st j)) (scr j)).
-    { intros j Hj Hne. rewrite (Ifi j Hj). cbn [opt_is].
-      replace (Nat.eqb id j) with false by (symmetry; apply Nat.eqb_neq; lia). reflexivity. }
+    pose proof (Ifi id Hid) as Hr. rewrite Hg, Hk in Hr. cbn [filled] in Hr.
     unfold hello_post. change (get_obj st id) with (obj_at st id). rewrite Hr.
+    change (raw_filled udigit uspace KNoEsc (scr id)) with (raw_filled udigit uspace KHello (scr id)).
     set (x := raw_filled udigit uspace KHello (scr id)) in *.
-    destruct (beqb (r_code x) C250) eqn:E250.
-    - destruct (parse_string uspace (get_message x)) as [hdr exts] eqn:Eps.
-      set (st1 := if s_lmtp st then set_rcpttos st []%list else st).
-      set (st' := set_obj (set_exts st1 exts) id (set_message udigit uspace x hdr)).
-      assert (Eobjs : s_objs st' = upd (s_objs st) id
-                 (fun o => mkObj (o_cmd o) (o_kind o) (set_message udigit uspace x hdr))).
-      { subst st' st1. destruct (s_lmtp st); reflexivity. }
+    (* both branches: object id gets kind KHello and the reply `filled KHello` *)
+    assert (Hgen : forall st' r',
+               s_objs st' = upd (s_objs st) id (fun o => mkObj (o_cmd o) KHello r') ->
+               r' = filled udigit uspace KHello (scr id) ->
+               s_dead st' = s_dead st -> s_queue st' = s_queue st -> s_rbuf st' = s_rbuf st ->
+               s_chunks st' = s_chunks st ->
+               (s_rcpttos st' = s_rcpttos st \/ s_rcpttos st' = []%list) ->
+               Inv st' f).
+    { intros st' r' Eobjs Er' Ed Eq Eb Ech Erc.
       assert (Eat : forall j, obj_at st' j =
-                 if Nat.eqb j id then mkObj (o_cmd (obj_at st id)) (o_kind (obj_at st id)) (set_message udigit uspace x hdr)
-                 else obj_at st j).
+                 if Nat.eqb j id then mkObj (o_cmd (obj_at st id)) KHello r' else obj_at st j).
       { intros j. unfold obj_at. rewrite Eobjs. destruct (Nat.eqb j id) eqn:E.
         - apply Nat.eqb_eq in E. subst j. rewrite cl_nth_upd_eq by (fold n; lia). reflexivity.
         - apply Nat.eqb_neq in E. rewrite cl_nth_upd_neq by lia. reflexivity. }
-      assert (Ekc : forall j, o_kind (obj_at st' j) = o_kind (obj_at st j) /\ o_cmd (obj_at st' j) = o_cmd (obj_at st j)).
-      { intros j. rewrite Eat. destruct (Nat.eqb j id) eqn:E; [|split; reflexivity].
-        apply Nat.eqb_eq in E. subst j. split; reflexivity. }
       assert (Elen : length (s_objs st') = n) by (rewrite Eobjs, cl_upd_length; reflexivity).
-      assert (Erest : s_dead st' = s_dead st /\ s_queue st' = s_queue st /\ s_rbuf st' = s_rbuf st /\
-                      s_chunks st' = s_chunks st).
-      { subst st' st1. destruct (s_lmtp st); repeat split; reflexivity. }
-      destruct Erest as (Ed & Eq & Eb & Ech).
       constructor; rewrite ?Elen, ?Ed, ?Eq, ?Eb, ?Ech; try assumption.
-      + intros j Hj. destruct (Ekc j) as [Hkj _]. rewrite Hkj. cbn [opt_is]. rewrite Eat.
-        destruct (Nat.eqb j id) eqn:E.
-        * apply Nat.eqb_eq in E. subst j. cbn [o_r]. rewrite Hk. cbn [filled]. fold x.
-          rewrite E250, Eps. reflexivity.
-        * apply Nat.eqb_neq in E. apply Hother; assumption.
-      + intros j Hj. lia.
-      + intros i Hi. discriminate.
+      + intros j Hj. rewrite Eat. destruct (Nat.eqb j id) eqn:E.
+        * apply Nat.eqb_eq in E. subst j. cbn [o_r o_kind]. rewrite Hg. exact Er'.
+        * apply Ifi. exact Hj.
+      + intros j Hj. rewrite Eat. replace (Nat.eqb j id) with false by (symmetry; apply Nat.eqb_neq; lia).
+        apply Iun. exact Hj.
       + assert (Hr' : Forall (fun p => snd p < n /\ o_kind (obj_at st' (snd p)) = KPlain /\
                                         o_cmd (obj_at st' (snd p)) = RCPT) (s_rcpttos st)).
-        { eapply Forall_impl; [|exact Ir]. intros p (H1 & H2 & H3).
-          destruct (Ekc (snd p)) as [Hkp Hcp]. rewrite Hkp, Hcp. auto. }
-        subst st' st1. destruct (s_lmtp st); [constructor|exact Hr'].
-    - constructor; try assumption.
-      + intros j Hj. cbn [opt_is]. destruct (Nat.eq_dec j id) as [->|Hne].
-        * rewrite Hr, Hk. cbn [filled]. fold x. rewrite E250. reflexivity.
-        * apply Hother; assumption.
-      + intros j Hj. lia.
-      + intros i Hi. discriminate.
+        { eapply Forall_impl; [|exact Ir]. intros p (H1 & H2 & H3). rewrite Eat.
+          destruct (Nat.eqb (snd p) id) eqn:E; [|auto].
+          apply Nat.eqb_eq in E. rewrite E in H2. congruence. }
+        destruct Erc as [->| ->]; [exact Hr'|constructor]. }
+    destruct (beqb (r_code x) C250) eqn:E250.
+    - destruct (parse_string uspace (get_message x)) as [hdr exts] eqn:Eps.
+      eapply (Hgen _ (set_message udigit uspace x hdr)).
+      + destruct (s_lmtp st); reflexivity.
+      + cbn [filled]. fold x. rewrite E250, Eps. reflexivity.
+      + destruct (s_lmtp st); reflexivity.
+      + destruct (s_lmtp st); reflexivity.
+      + destruct (s_lmtp st); reflexivity.
+      + destruct (s_lmtp st); reflexivity.
+      + destruct (s_lmtp st); [right|left]; reflexivity.
+    - eapply (Hgen _ x); try reflexivity.
+      + cbn [filled]. fold x. rewrite E250. reflexivity.
+      + left. reflexivity.
   Qed.
 
   (* ---------------------------------------------------------------- *)
   (* the methods                                                       *)
 
   Lemma cl_command_method_inv : forall cmd k w fl st f st' res,
-    InvX None st f ->
+    Inv st f -> k <> KHello ->
     command_method udigit uspace cmd k w fl st = (st', res) ->
     length (s_objs st') <= length script ->
     let n := length (s_objs st) in
-    res = RObj n /\
-    InvX (hp_of k n) st' (if fl then S n else f) /\
-    length (s_objs st') = S n /\
-    s_lmtp st' = s_lmtp st /\ s_rcpttos st' = s_rcpttos st /\ s_exts st' = s_exts st /\
-    o_kind (obj_at st' n) = k /\ o_cmd (obj_at st' n) = cmd.
+    exists f', Inv st' f' /\ f <= f' /\
+      length (s_objs st') = S n /\
+      s_lmtp st' = s_lmtp st /\ s_rcpttos st' = s_rcpttos st /\ s_exts st' = s_exts st /\
+      o_kind (obj_at st' n) = k /\ o_cmd (obj_at st' n) = cmd /\
+      ((res = RObj n /\ f' = (if fl then S n else f) /\
+        (fl = true -> forall j, f <= j < S n -> good j = true)) \/
+       (fl = true /\ res = RExn XBadReply /\ has_bad)).
   Proof.
-    intros cmd k w fl st f st' res I H Hlen n.
+    intros cmd k w fl st f st' res I Hk H Hlen n.
     pose proof (cl_command_method_len cmd k w fl st) as Hl. rewrite H in Hl. cbn [fst] in Hl.
-    pose proof (cl_new_slot_inv cmd k st f I) as I1. fold n in I1.
+    pose proof (cl_new_slot_inv cmd k st f Hk I) as I1.
     unfold command_method in H.
     destruct (new_slot cmd k st) as [st1 id] eqn:Ens. cbn [fst] in I1.
     assert (Eid : id = n) by (unfold new_slot in Ens; inversion Ens; reflexivity).
@@ -781,7 +836,7 @@ Section Pairing.
     assert (Efr : s_lmtp st1 = s_lmtp st /\ s_rcpttos st1 = s_rcpttos st /\ s_exts st1 = s_exts st)
       by (unfold new_slot in Ens; inversion Ens; repeat split; reflexivity).
     destruct Efr as (Ef1 & Ef2 & Ef3).
-    apply (cl_buffered_send_inv _ w) in I1.
+    apply (cl_buffered_send_inv w) in I1.
     set (st2 := buffered_send w st1) in *.
     assert (Eo2 : s_objs st2 = s_objs st1) by reflexivity.
     assert (Elen2 : length (s_objs st2) = S n).
@@ -789,497 +844,56 @@ Section Pairing.
     assert (Hnew : obj_at st2 n = mkObj cmd k (unfilled k)).
     { unfold obj_at. rewrite Eo2. apply (cl_obj_at_app_r st1 st _ Eo). }
     destruct fl.
-    - destruct (cl_flush_inv _ st2 f I1) as (st3 & Hfl & I3 & Hl3 & Hlm & Hex & Hrc & Hkc); [lia|].
-      rewrite Hfl in H. inversion H; subst st' res. clear H.
-      rewrite Elen2 in I3. destruct (Hkc n) as [Hk Hc]. rewrite Hk, Hc, Hnew.
-      rewrite Hlm, Hex, Hrc. cbn [o_kind o_cmd]. auto 10.
-    - inversion H; subst st' res. clear H. rewrite Hnew. cbn [o_kind o_cmd]. auto 10.
+    - destruct (cl_flush_inv st2 f I1) as (st3 & e & f' & Hfl & I3 & Hff & Hl3 & Hlm & Hex & Hrc & Hkc & Hout); [lia|].
+      rewrite Hfl in H. rewrite Elen2 in *.
+      destruct (Hkc n) as [Hk' Hc]. rewrite Hnew in Hk', Hc. cbn [o_kind o_cmd] in Hk', Hc.
+      destruct Hout as [(-> & -> & Hall)|(-> & Hlt & Hb)]; inversion H; subst st' res; clear H.
+      + exists (S n). split; [exact I3|]. split; [lia|]. rewrite Hlm, Hex, Hrc.
+        repeat (split; [first [assumption | reflexivity]|]). left. auto.
+      + exists f'. split; [exact I3|]. split; [lia|]. rewrite Hlm, Hex, Hrc.
+        repeat (split; [first [assumption | reflexivity]|]). right.
+        split; [reflexivity|]. split; [reflexivity|]. apply (cl_bad_has_bad (f' - 1)); [lia|exact Hb].
+    - inversion H; subst st' res. clear H. exists f. split; [exact I1|]. split; [lia|].
+      rewrite Hnew. cbn [o_kind o_cmd].
+      repeat (split; [first [assumption | reflexivity]|]). left.
+      split; [reflexivity|]. split; [reflexivity|]. intros Hx. discriminate.
   Qed.
 
   Lemma cl_hello_method_inv : forall verb a st f st' res,
-    InvX None st f ->
+    Inv st f ->
     hello_method udigit uspace verb a st = (st', res) ->
     length (s_objs st') <= length script ->
     (res = RExn XEncode /\ st' = st) \/
-    (res = RObj (length (s_objs st)) /\ InvX None st' (S (length (s_objs st))) /\
-     length (s_objs st') = S (length (s_objs st)) /\ s_lmtp st' = s_lmtp st /\
-     (s_rcpttos st' = s_rcpttos st \/ s_rcpttos st' = []%list)).
+    (exists f', Inv st' f' /\ length (s_objs st') = S (length (s_objs st)) /\ s_lmtp st' = s_lmtp st /\
+        ((res = RObj (length (s_objs st)) /\ (s_rcpttos st' = s_rcpttos st \/ s_rcpttos st' = []%list)) \/
+         (res = RExn XBadReply /\ has_bad /\ s_rcpttos st' = s_rcpttos st))).
   Proof.
     intros verb a st f st' res I H Hlen. unfold hello_method in H.
     destruct (enc_ascii a) as [ab|]; [|inversion H; left; auto].
     right.
-    destruct (command_method udigit uspace verb KHello (verb ++ [32%N] ++ ab ++ CRLF)%list true st)
+    destruct (command_method udigit uspace verb KNoEsc (verb ++ [32%N] ++ ab ++ CRLF)%list true st)
       as [st1 r1] eqn:Ecm.
     assert (Hl1 : length (s_objs st1) = S (length (s_objs st))).
-    { pose proof (cl_command_method_len verb KHello (verb ++ [32%N] ++ ab ++ CRLF)%list true st) as X.
+    { pose proof (cl_command_method_len verb KNoEsc (verb ++ [32%N] ++ ab ++ CRLF)%list true st) as X.
       rewrite Ecm in X. exact X. }
     assert (Hlen1 : length (s_objs st1) <= length script).
     { destruct r1; inversion H; subst; try assumption. rewrite cl_hello_post_len in Hlen. exact Hlen. }
-    destruct (cl_command_method_inv _ _ _ _ _ _ _ _ I Ecm Hlen1) as (Hr & I1 & _ & Hlm & Hrc1 & _).
-    subst r1. inversion H; subst st' res. clear H.
-    cbn [hp_of] in I1. rewrite <- Hl1 in I1.
-    split; [reflexivity|]. split.
-    - rewrite <- Hl1. apply cl_hello_post_inv. exact I1.
-    - split; [rewrite cl_hello_post_len; exact Hl1|].
-      unfold hello_post. destruct (beqb _ C250); [|auto].
-      destruct (parse_string uspace _). destruct (s_lmtp st1) eqn:E; cbn; split; auto; congruence.
-  Qed.
-
-  (* LMTP: which recipients get an end-of-data reply *)
-  Definition accepted (rs : list (list N * nat)) : list (list N * nat) :=
-    filter (fun p => class2 (fst (scr (snd p)))) rs.
-
-  Lemma cl_number_fst : forall l n, map fst (number n l) = l.
-  Proof. induction l; intros; cbn; [reflexivity|]. f_equal. apply IHl. Qed.
-  Lemma cl_number_snd : forall l n, map snd (number n l) = seq n (length l).
-  Proof. induction l; intros; cbn; [reflexivity|]. f_equal. apply IHl. Qed.
-
-  Lemma cl_lmtp_slots_inv : forall rs st acc f,
-    InvX None st f ->
-    Forall (fun p => snd p < f /\ o_kind (obj_at st (snd p)) = KPlain) rs ->
-    exists st1,
-      lmtp_slots rs st acc =
-        (st1, Some (acc ++ number (length (s_objs st)) (map fst (accepted rs)))%list) /\
-      InvX None st1 f /\
-      length (s_objs st1) = length (s_objs st) + length (accepted rs) /\
-      s_lmtp st1 = s_lmtp st /\ s_exts st1 = s_exts st /\ s_rcpttos st1 = s_rcpttos st.
-  Proof.
-    induction rs as [|[a rid] rs IH]; intros st acc f I Hrs.
-    - exists st. cbn. rewrite app_nil_r, Nat.add_0_r. auto 10.
-    - inversion Hrs as [|? ? [Hrid Hkind] Hrs']; subst. cbn [snd] in *.
-      cbn [lmtp_slots]. change (get_obj st rid) with (obj_at st rid).
-      pose proof (I_filled _ _ _ I rid Hrid) as Hr. cbn [opt_is] in Hr.
-      rewrite Hkind in Hr. rewrite Hr. cbn [filled]. unfold raw_filled.
-      rewrite cl_set_message_code. cbn [r_code].
-      assert (Hwf1 : wf_reply (scr rid) = true).
-      { apply cl_scr_wf. pose proof (I_fscript _ _ _ I). lia. }
-      destruct (scr rid) as [c ls] eqn:Escr.
-      destruct (cl_wf_reply_inv c ls Hwf1) as (_ & (d1 & d2 & d3 & -> & _) & _).
-      cbn [fst]. unfold accepted. cbn [filter snd]. rewrite Escr. cbn [fst class2].
-      destruct (d1 =? 50)%N.
-      + pose proof (cl_new_slot_inv SEND_DATA KPlain st f I) as I1. cbn [hp_of] in I1.
-        destruct (new_slot SEND_DATA KPlain st) as [st1 id] eqn:Ens. cbn [fst] in I1.
-        assert (Eid : id = length (s_objs st)) by (unfold new_slot in Ens; inversion Ens; reflexivity).
-        assert (Eo : s_objs st1 = (s_objs st ++ [mkObj SEND_DATA KPlain (unfilled KPlain)])%list)
-          by (unfold new_slot in Ens; inversion Ens; reflexivity).
-        assert (Efr : s_lmtp st1 = s_lmtp st /\ s_rcpttos st1 = s_rcpttos st /\ s_exts st1 = s_exts st)
-          by (unfold new_slot in Ens; inversion Ens; repeat split; reflexivity).
-        destruct Efr as (Ef1 & Ef2 & Ef3).
-        destruct (IH st1 (acc ++ [(a, id)])%list f I1) as (st2 & Hsl & I2 & Hl2 & Hlm & Hex & Hrc).
-        * eapply Forall_impl; [|exact Hrs']. intros p [H1 H2].
-          rewrite (cl_obj_at_app_l st1 st _ (snd p) Eo); [auto|].
-          pose proof (I_fle _ _ _ I). lia.
-        * exists st2. rewrite Hsl. subst id.
-          assert (El : length (s_objs st1) = S (length (s_objs st))).
-          { rewrite Eo, app_length. cbn. lia. }
-          rewrite El. cbn [map fst number length]. rewrite <- app_assoc. cbn [app].
-          split; [reflexivity|]. split; [exact I2|].
-          split; [rewrite Hl2, El; fold (accepted rs); lia|]. rewrite Hlm, Hex, Hrc. auto.
-      + apply IH; assumption.
-  Qed.
-
-  Lemma cl_lmtp_data_inv : forall w st f st' res,
-    InvX None st f ->
-    lmtp_data udigit uspace w st = (st', res) ->
-    length (s_objs st') <= length script ->
-    exists f',
-      res = RPairs (number (length (s_objs st)) (map fst (accepted (s_rcpttos st)))) /\
-      InvX None st' f' /\
-      length (s_objs st') = length (s_objs st) + length (accepted (s_rcpttos st)) /\
-      s_lmtp st' = s_lmtp st /\ s_rcpttos st' = []%list.
-  Proof.
-    intros w st f st' res I H Hlen.
-    pose proof (cl_lmtp_data_len w st) as Hmono. rewrite H in Hmono. cbn [fst] in Hmono.
-    unfold lmtp_data in H.
-    destruct (cl_flush_inv _ st f I) as (st0 & Hfl & I0 & Hl0 & Hlm0 & Hex0 & Hrc0 & Hkc0); [lia|].
-    rewrite Hfl in H.
-    assert (Hrs : Forall (fun p => snd p < length (s_objs st) /\ o_kind (obj_at st0 (snd p)) = KPlain)
-                         (s_rcpttos st0)).
-    { pose proof (I_rcpt _ _ _ I0) as Ir. rewrite Hl0 in Ir.
-      eapply Forall_impl; [|exact Ir]. intros p (H1 & H2 & _). auto. }
-    destruct (cl_lmtp_slots_inv (s_rcpttos st0) st0 []%list _ I0 Hrs)
-      as (st1 & Hsl & I1 & Hl1 & Hlm1 & Hex1 & Hrc1).
-    rewrite Hsl in H. cbn [app] in H. rewrite Hl0, Hrc0 in *.
-    set (ret := number (length (s_objs st)) (map fst (accepted (s_rcpttos st)))) in *.
-    apply cl_inv_clear_rcpttos in I1. apply (cl_buffered_send_inv _ w) in I1.
-    set (st2 := buffered_send w (set_rcpttos st1 []%list)) in *.
-    assert (E2 : length (s_objs st2) = length (s_objs st1) /\ s_lmtp st2 = s_lmtp st1 /\
-                 s_rcpttos st2 = []%list) by (repeat split; reflexivity).
-    destruct E2 as (El2 & Elm2 & Erc2).
-    destruct (pipelining st2).
-    - inversion H; subst st' res. exists (length (s_objs st)).
-      split; [reflexivity|]. split; [exact I1|]. rewrite El2, Hl1, Elm2, Hlm1, Hlm0. auto.
-    - pose proof (cl_flush_len st2) as Hfl2.
-      destruct (cl_flush_inv _ st2 _ I1) as (st3 & Hfl3 & I3 & Hl3 & Hlm3 & Hex3 & Hrc3 & _).
-      + destruct (flush udigit uspace st2) as [stx [e|]]; inversion H; subst; cbn [fst] in Hfl2; lia.
-      + rewrite Hfl3 in H. inversion H; subst st' res. eexists. split; [reflexivity|].
-        split; [exact I3|]. rewrite Hl3, Hrc3, Hlm3, El2, Hl1, Elm2, Hlm1, Hlm0. auto.
-  Qed.
-
-  (* what a call may return when the script is long enough: its own, new object(s), or an
-     exception raised before anything was queued or sent *)
-  Definition res_ok (n n' : nat) (res : result) : Prop :=
-    match res with
-    | RObj id => id = n /\ n' = S n
-    | RPairs l => map snd l = seq n (length l) /\ n' = n + length l
-    | RExn XEncode => n' = n
-    | RExn XNotImpl => n' = n
-    | RExn _ => False
-    end.
-
-  Lemma cl_inv_add_rcpt : forall st f a id,
-    InvX None st f -> id < length (s_objs st) ->
-    o_kind (obj_at st id) = KPlain -> o_cmd (obj_at st id) = RCPT ->
-    InvX None (set_rcpttos st (s_rcpttos st ++ [(a, id)])%list) f.
-  Proof.
-    intros st f a id [Id Iq Ifl Ifs Is Ic Ifi Iun Ihp Ir] H1 H2 H3.
-    constructor; try assumption.
-    cbn [s_rcpttos set_rcpttos]. apply Forall_app. split; [exact Ir|]. constructor; [|constructor].
-    cbn [snd]. auto.
-  Qed.
-
-  (* how a call changes LmtpClient.rcpttos *)
-  Definition rc_step (o : op) (st st' : cstate) (res : result) : Prop :=
-    (s_rcpttos st' = s_rcpttos st \/ s_rcpttos st' = []%list \/
-     exists a, o = ORcpt a /\ res = RObj (length (s_objs st)) /\
-               s_rcpttos st' = (s_rcpttos st ++ [(a, length (s_objs st))])%list) /\
-    (forall e, res = RExn e -> st' = st).
-
-  Lemma cl_step_inv : forall o st f st' res,
-    InvX None st f ->
-    step udigit uspace o st = (st', res) ->
-    length (s_objs st') <= length script ->
-    exists f', InvX None st' f' /\
-               res_ok (length (s_objs st)) (length (s_objs st')) res /\
-               s_lmtp st' = s_lmtp st /\ rc_step o st st' res.
-  Proof.
-    intros o st f st' res I H Hlen. unfold step in H. rewrite (I_dead _ _ _ I) in H.
-    assert (CM : forall cmd k w fl st1 r1,
-               k <> KHello ->
-               command_method udigit uspace cmd k w fl st = (st1, r1) ->
-               length (s_objs st1) <= length script ->
-               exists f', InvX None st1 f' /\ res_ok (length (s_objs st)) (length (s_objs st1)) r1 /\
-                          s_lmtp st1 = s_lmtp st /\ s_rcpttos st1 = s_rcpttos st /\
-                          r1 = RObj (length (s_objs st)) /\
-                          o_kind (obj_at st1 (length (s_objs st))) = k /\
-                          o_cmd (obj_at st1 (length (s_objs st))) = cmd).
-    { intros cmd k w fl st1 r1 Hk Hcm Hl.
-      destruct (cl_command_method_inv _ _ _ _ _ _ _ _ I Hcm Hl) as (Hr & I1 & Hl1 & Hlm & Hrc & _ & Hk1 & Hc1).
-      assert (Eh : hp_of k (length (s_objs st)) = None) by (destruct k; [reflexivity|reflexivity|congruence]).
-      rewrite Eh in I1.
-      eexists. split; [exact I1|]. subst r1. cbn [res_ok]. auto 10. }
-    assert (EXN : forall e, (e = XEncode \/ e = XNotImpl) -> (st, RExn e) = (st', res) ->
-               exists f', InvX None st' f' /\ res_ok (length (s_objs st)) (length (s_objs st')) res /\
-                          s_lmtp st' = s_lmtp st /\ rc_step o st st' res).
-    { intros e He Heq. inversion Heq; subst. exists f. split; [exact I|]. unfold rc_step.
-      destruct He; subst; cbn; auto 6. }
-    assert (HELLO : forall verb a,
-               hello_method udigit uspace verb a st = (st', res) ->
-               exists f', InvX None st' f' /\ res_ok (length (s_objs st)) (length (s_objs st')) res /\
-                          s_lmtp st' = s_lmtp st /\ rc_step o st st' res).
-    { intros verb a Hh.
-      destruct (cl_hello_method_inv _ _ _ _ _ _ I Hh Hlen) as [[-> ->]|(-> & I1 & Hl1 & Hlm & Hrc)].
-      - exists f. unfold rc_step. cbn. auto 6.
-      - eexists. split; [exact I1|]. unfold rc_step. cbn.
-        repeat split; try reflexivity; try assumption; [destruct Hrc; auto|discriminate]. }
-    assert (CM' : forall cmd k w fl, k <> KHello ->
-               command_method udigit uspace cmd k w fl st = (st', res) ->
-               exists f', InvX None st' f' /\ res_ok (length (s_objs st)) (length (s_objs st')) res /\
-                          s_lmtp st' = s_lmtp st /\ rc_step o st st' res).
-    { intros cmd k w fl Hk Hcm. destruct (CM _ _ _ _ _ _ Hk Hcm Hlen) as (f' & ? & ? & ? & ? & ? & _).
-      subst res. exists f'. split; [assumption|]. split; [assumption|]. split; [assumption|].
-      unfold rc_step. split; [left; assumption|intros e He; discriminate]. }
-    assert (LD : forall w, lmtp_data udigit uspace w st = (st', res) ->
-               exists f', InvX None st' f' /\ res_ok (length (s_objs st)) (length (s_objs st')) res /\
-                          s_lmtp st' = s_lmtp st /\ rc_step o st st' res).
-    { intros w Hd. destruct (cl_lmtp_data_inv _ _ _ _ _ I Hd Hlen) as (f' & -> & I1 & Hl1 & Hlm & Hrc0).
-      exists f'. split; [exact I1|]. cbn [res_ok]. rewrite cl_number_snd, Hl1.
-      rewrite !map_length. rewrite (cl_number_fst) || idtac.
-      assert (length (number (length (s_objs st)) (map fst (accepted (s_rcpttos st)))) =
-              length (accepted (s_rcpttos st))).
-      { rewrite <- (map_length fst (number _ _)), cl_number_fst, map_length. reflexivity. }
-      rewrite H0. split; [auto|]. split; [assumption|].
-      unfold rc_step. split; [right; left; assumption|intros e He; discriminate]. }
-    assert (Hkp : KPlain <> KHello) by discriminate.
-    destruct o.
-    - eapply CM'; [|exact H]. discriminate.
-    - eapply CM'; [|exact H]. discriminate.
-    - destruct (s_lmtp st); [apply (EXN XNotImpl); auto|]. eapply HELLO; exact H.
-    - destruct (s_lmtp st); [apply (EXN XNotImpl); auto|].
-      destruct (enc_ascii a); [|apply (EXN XEncode); auto]. eapply CM'; [|exact H]. discriminate.
-    - destruct (s_lmtp st); [|apply (EXN XNotImpl); auto]. eapply HELLO; exact H.
-    - destruct (mail_command st addr size auth); [|apply (EXN XEncode); auto].
-      eapply CM'; [|exact H]. discriminate.
-    - destruct (encode st addr) as [ab|]; [|apply (EXN XEncode); auto].
-      destruct (command_method udigit uspace (bs "RCPT") KPlain _ _ st) as [st1 r1] eqn:Ecm.
-      assert (Hl1 : length (s_objs st1) <= length script).
-      { destruct r1; inversion H; subst; try assumption. destruct (s_lmtp st1); exact Hlen. }
-      destruct (CM _ _ _ _ _ _ Hkp Ecm Hl1) as (f' & I1 & Hres & Hlm & Hrc & -> & Hk & Hc).
-      inversion H; subst st' res. clear H.
-      pose proof Hres as Hres'. cbn [res_ok] in Hres'. destruct Hres' as [_ Hn].
-      destruct (s_lmtp st1) eqn:E1.
-      + exists f'. split; [|split; [exact Hres|split; [cbn; congruence|]]].
-        * apply cl_inv_add_rcpt; try assumption. lia.
-        * unfold rc_step. split; [|discriminate]. right. right. exists addr. rewrite Hrc. auto.
-      + exists f'. split; [exact I1|]. split; [exact Hres|]. split; [congruence|]. unfold rc_step.
-        split; [auto|discriminate].
-    - unfold custom in H. eapply CM'; [|exact H]. discriminate.
-    - destruct (s_lmtp st); [eapply LD; exact H|]. eapply CM'; [|exact H]. discriminate.
-    - destruct (s_lmtp st); [eapply LD; exact H|]. eapply CM'; [|exact H]. discriminate.
-    - unfold custom in H.
-      destruct (command_method udigit uspace _ KPlain _ true st) as [st1 r1] eqn:Ecm.
-      assert (Hl1 : length (s_objs st1) <= length script).
-      { destruct r1; inversion H; subst; try assumption. destruct (s_lmtp st1); exact Hlen. }
-      destruct (CM _ _ _ _ _ _ Hkp Ecm Hl1) as (f' & I1 & Hres & Hlm & Hrc & -> & Hk & Hc).
-      inversion H; subst st' res. clear H.
-      destruct (s_lmtp st1) eqn:E1.
-      + exists f'. split; [apply cl_inv_clear_rcpttos; exact I1|]. split; [exact Hres|].
-        split; [cbn; congruence|]. unfold rc_step. cbn. split; [auto|discriminate].
-      + exists f'. split; [exact I1|]. split; [exact Hres|]. split; [congruence|]. unfold rc_step.
-        split; [auto|discriminate].
-    - unfold custom in H. eapply CM'; [|exact H]. discriminate.
-    - unfold custom in H. eapply CM'; [|exact H]. discriminate.
-  Qed.
-
-  (* ---------------------------------------------------------------- *)
-  (* sequences of calls                                                *)
-
-
-  Lemma cl_sorted_snoc : forall l n,
-    StronglySorted lt l -> Forall (fun x => x < n) l -> StronglySorted lt (l ++ [n]).
-  Proof.
-    induction l as [|x l IH]; intros n Hs Hf; cbn.
-    - constructor; constructor.
-    - inversion Hs; subst. inversion Hf; subst. constructor; [apply IH; assumption|].
-      apply Forall_app. split; [assumption|]. constructor; [assumption|constructor].
-  Qed.
-
-  Lemma cl_res_ok_ids : forall n n' r, res_ok n n' r -> result_ids r = seq n (n' - n) /\ result_ok r /\ n <= n'.
-  Proof.
-    intros n n' r H. destruct r as [id|l|e]; cbn in *.
-    - destruct H as [-> ->]. replace (S n - n) with 1 by lia. cbn. auto with arith.
-    - destruct H as [H ->]. replace (n + length l - n) with (length l) by lia. split; [exact H|]. split; [exact I|lia].
-    - destruct e; try contradiction; subst; rewrite Nat.sub_diag; cbn; auto.
-  Qed.
-
-  Lemma cl_run_inv : forall ops st f st' results,
-    InvX None st f ->
-    StronglySorted lt (map snd (s_rcpttos st)) ->
-    run udigit uspace ops st = (st', results) ->
-    length (s_objs st') <= length script ->
-    exists f', InvX None st' f' /\
-      flat_map result_ids results = seq (length (s_objs st)) (length (s_objs st') - length (s_objs st)) /\
-      Forall result_ok results /\ s_lmtp st' = s_lmtp st /\
-      StronglySorted lt (map snd (s_rcpttos st')) /\
-      Forall (fun p => In p (s_rcpttos st) \/ from_call ops results p) (s_rcpttos st').
-  Proof.
-    induction ops as [|o ops IH]; intros st f st' results I Hsort H Hlen.
-    - cbn in H. inversion H; subst. exists f. rewrite Nat.sub_diag. cbn.
-      repeat (split; [first [assumption | reflexivity | constructor]|]).
-      apply Forall_forall. intros p Hp. left. exact Hp.
-    - cbn [run] in H. destruct (step udigit uspace o st) as [st1 r] eqn:Es.
-      destruct (run udigit uspace ops st1) as [st2 rs] eqn:Er. inversion H; subst st' results. clear H.
-      pose proof (cl_run_mono ops st1) as Hm. rewrite Er in Hm. cbn [fst] in Hm.
-      assert (Hlen1 : length (s_objs st1) <= length script) by lia.
-      destruct (cl_step_inv o st f st1 r I Es Hlen1) as (f1 & I1 & Hres & Hlm1 & Hrc & _).
-      destruct (cl_res_ok_ids _ _ _ Hres) as (Hids & Hok & Hle).
-      assert (Hsort1 : StronglySorted lt (map snd (s_rcpttos st1))).
-      { destruct Hrc as [->|[->|(a & _ & _ & ->)]]; [assumption|constructor|].
-        rewrite map_app. cbn [map snd]. apply cl_sorted_snoc; [assumption|].
-        pose proof (I_rcpt _ _ _ I) as Ir. rewrite Forall_map.
-        eapply Forall_impl; [|exact Ir]. intros p (Hp & _). exact Hp. }
-      destruct (IH st1 f1 st2 rs I1 Hsort1 Er Hlen) as (f2 & I2 & Hids2 & Hok2 & Hlm2 & Hsort2 & Hhist).
-      exists f2. split; [exact I2|]. split.
-      { cbn [flat_map]. rewrite Hids, Hids2.
-        replace (length (s_objs st2) - length (s_objs st))
-          with ((length (s_objs st1) - length (s_objs st)) + (length (s_objs st2) - length (s_objs st1))) by lia.
-        rewrite seq_app. f_equal. f_equal. lia. }
-      split; [constructor; assumption|]. split; [congruence|]. split; [exact Hsort2|].
-      eapply Forall_impl; [|exact Hhist]. intros p [Hin|(k & Hk1 & Hk2)].
-      + destruct Hrc as [E|[E|(a & -> & -> & E)]]; rewrite E in Hin.
-        * left. exact Hin.
-        * destruct Hin.
-        * apply in_app_or in Hin. destruct Hin as [Hin|[<-|[]]]; [left; exact Hin|].
-          right. exists 0. cbn. auto.
-      + right. exists (S k). cbn. auto.
-  Qed.
-
-  Lemma cl_init_inv : forall lmtp exts chunks,
-    Forall nonempty chunks -> (concat chunks = wire script ++ extra)%list ->
-    InvX None (init lmtp exts chunks) 0.
-  Proof.
-    intros lmtp exts chunks Hc Hs. constructor.
-    - reflexivity.
-    - reflexivity.
-    - cbn. lia.
-    - lia.
-    - cbn [init s_rbuf s_chunks app]. rewrite Hs. reflexivity.
-    - exact Hc.
-    - intros j Hj. lia.
-    - intros j Hj. cbn in Hj. lia.
-    - intros i Hi. discriminate.
-    - constructor.
-  Qed.
-
-  (* everything the theorems of prop/C10.v are read off from *)
-  Lemma cl_run_final : forall lmtp exts0 ops chunks st results,
-    Forall nonempty chunks -> (concat chunks = wire script ++ extra)%list ->
-    run udigit uspace ops (init lmtp exts0 chunks) = (st, results) ->
-    length (s_objs st) <= length script ->
-    InvX None st (length (s_objs st) - length (s_queue st)) /\
-    flat_map result_ids results = seq 0 (length (s_objs st)) /\
-    Forall result_ok results /\ s_lmtp st = lmtp /\
-    StronglySorted lt (map snd (s_rcpttos st)) /\
-    Forall (from_call ops results) (s_rcpttos st).
-  Proof.
-    intros lmtp exts0 ops chunks st results Hc Hs Hrun Hlen.
-    destruct (cl_run_inv ops _ 0 st results (cl_init_inv lmtp exts0 chunks Hc Hs) ltac:(constructor) Hrun Hlen)
-      as (f & I & Hids & Hok & Hlm & Hsort & Hhist).
-    cbn [init s_objs length s_lmtp s_rcpttos] in *. rewrite Nat.sub_0_r in Hids.
-    assert (Ef : length (s_objs st) - length (s_queue st) = f).
-    { rewrite (I_queue _ _ _ I), seq_length. pose proof (I_fle _ _ _ I). lia. }
-    rewrite Ef. repeat (split; [assumption|]).
-    eapply Forall_impl; [|exact Hhist]. intros p [[]|H]. exact H.
-  Qed.
-
-  Lemma cl_pairing : forall lmtp exts0 ops chunks st results,
-    Forall nonempty chunks -> (concat chunks = wire script ++ extra)%list ->
-    run udigit uspace ops (init lmtp exts0 chunks) = (st, results) ->
-    length (s_objs st) <= length script ->
-    let n := length (s_objs st) in
-    let f := n - length (s_queue st) in
-    flat_map result_ids results = seq 0 n /\
-    Forall result_ok results /\
-    s_queue st = seq f (n - f) /\
-    forall j, j < n ->
-      o_r (nth j (s_objs st) dummy_obj) =
-        if j <? f then filled udigit uspace (o_kind (nth j (s_objs st) dummy_obj)) (nth j script dflt)
-        else unfilled (o_kind (nth j (s_objs st) dummy_obj)).
-  Proof.
-    intros lmtp exts0 ops chunks st results Hc Hs Hrun Hlen n f.
-    destruct (cl_run_final _ _ _ _ _ _ Hc Hs Hrun Hlen) as (I & Hids & Hok & _).
-    fold n f in I. repeat (split; [first [assumption | exact (I_queue _ _ _ I)]|]).
-    intros j Hj. destruct (j <? f) eqn:E.
-    - apply Nat.ltb_lt in E. exact (I_filled _ _ _ I j E).
-    - apply Nat.ltb_ge in E. destruct (I_unfilled _ _ _ I j) as [H _]; [fold n; lia|exact H].
-  Qed.
-
-  Lemma cl_no_overread : forall lmtp exts0 ops chunks st results,
-    Forall nonempty chunks -> (concat chunks = wire script ++ extra)%list ->
-    run udigit uspace ops (init lmtp exts0 chunks) = (st, results) ->
-    length (s_objs st) <= length script ->
-    (s_rbuf st ++ concat (s_chunks st) =
-       wire (skipn (length (s_objs st) - length (s_queue st)) script) ++ extra)%list /\
-    Forall nonempty (s_chunks st) /\ s_dead st = false.
-  Proof.
-    intros lmtp exts0 ops chunks st results Hc Hs Hrun Hlen.
-    destruct (cl_run_final _ _ _ _ _ _ Hc Hs Hrun Hlen) as (I & _).
-    split; [exact (I_stream _ _ _ I)|]. split; [exact (I_chunks _ _ _ I)|exact (I_dead _ _ _ I)].
-  Qed.
-
-  Lemma cl_lmtp_pairing : forall exts0 ops chunks st results o st' res,
-    Forall nonempty chunks -> (concat chunks = wire script ++ extra)%list ->
-    run udigit uspace ops (init true exts0 chunks) = (st, results) ->
-    (o = OSendEmpty \/ exists payload, o = OSendData payload) ->
-    step udigit uspace o st = (st', res) ->
-    length (s_objs st') <= length script ->
-    let n := length (s_objs st) in
-    let acc := filter (fun p => class2 (fst (nth (snd p) script dflt))) (s_rcpttos st) in
-    res = RPairs (number n (map fst acc)) /\
-    length (s_objs st') = n + length acc /\
-    s_rcpttos st' = []%list /\
-    StronglySorted lt (map snd (s_rcpttos st)) /\
-    Forall (fun p => from_call ops results p /\ snd p < n /\
-                     o_cmd (nth (snd p) (s_objs st) dummy_obj) = bs "RCPT") (s_rcpttos st).
-  Proof.
-    intros exts0 ops chunks st results o st' res Hc Hs Hrun Ho Hstep Hlen n acc.
-    pose proof (cl_step_mono o st) as Hm. rewrite Hstep in Hm. cbn [fst] in Hm.
-    assert (Hlen0 : length (s_objs st) <= length script) by lia.
-    destruct (cl_run_final _ _ _ _ _ _ Hc Hs Hrun Hlen0) as (I & _ & _ & Hlm & Hsort & Hhist).
-    assert (Hd : exists w, lmtp_data udigit uspace w st = (st', res)).
-    { unfold step in Hstep. rewrite (I_dead _ _ _ I), Hlm in Hstep.
-      destruct Ho as [->|[payload ->]]; eauto. }
-    destruct Hd as [w Hd].
-    destruct (cl_lmtp_data_inv _ _ _ _ _ I Hd Hlen) as (f' & Hres & _ & Hl & _ & Hrc).
-    split; [exact Hres|]. split; [exact Hl|]. split; [exact Hrc|]. split; [exact Hsort|].
-    pose proof (I_rcpt _ _ _ I) as Ir. rewrite Forall_forall in *. intros p Hp.
-    destruct (Ir p Hp) as (H1 & _ & H3). auto.
-  Qed.
-
-  (* a call that raises has changed nothing: no reply slot is left without its command *)
-  Lemma cl_raise_is_noop : forall lmtp exts0 ops chunks st results o st' e,
-    Forall nonempty chunks -> (concat chunks = wire script ++ extra)%list ->
-    run udigit uspace ops (init lmtp exts0 chunks) = (st, results) ->
-    step udigit uspace o st = (st', RExn e) ->
-    length (s_objs st') <= length script ->
-    st' = st /\ (e = XEncode \/ e = XNotImpl).
-  Proof.
-    intros lmtp exts0 ops chunks st results o st' e Hc Hs Hrun Hstep Hlen.
-    pose proof (cl_step_mono o st) as Hm. rewrite Hstep in Hm. cbn [fst] in Hm.
-    assert (Hlen0 : length (s_objs st) <= length script) by lia.
-    destruct (cl_run_final _ _ _ _ _ _ Hc Hs Hrun Hlen0) as (I & _).
-    destruct (cl_step_inv _ _ _ _ _ I Hstep Hlen) as (f' & _ & Hres & _ & _ & Hno).
-    split; [apply (Hno e); reflexivity|]. destruct e; cbn in Hres; auto; contradiction.
+    assert (Hkn : KNoEsc <> KHello) by discriminate.
+    destruct (cl_command_method_inv _ _ _ _ _ _ _ _ I Hkn Ecm Hlen1)
+      as (f' & I1 & Hff & _ & Hlm & Hrc1 & _ & Hk1 & _ & Hout).
+    destruct Hout as [(-> & -> & Hall)|(_ & -> & Hb)]; inversion H; subst st' res; clear H.
+    - exists (S (length (s_objs st))).
+      split.
+      { apply cl_hello_post_inv; [exact I1|lia|exact Hk1|]. apply Hall; [reflexivity|].
+        pose proof (I_fle _ _ I). lia. }
+      split; [rewrite cl_hello_post_len; exact Hl1|].
+      assert (Hp : s_lmtp (hello_post udigit uspace (length (s_objs st)) st1) = s_lmtp st1 /\
+                   (s_rcpttos (hello_post udigit uspace (length (s_objs st)) st1) = s_rcpttos st1 \/
+                    s_rcpttos (hello_post udigit uspace (length (s_objs st)) st1) = []%list)).
+      { unfold hello_post. destruct (beqb _ C250); [|cbn; auto].
+        destruct (parse_string uspace _). destruct (s_lmtp st1) eqn:E; cbn; auto. }
+      destruct Hp as [Hp1 Hp2]. split; [congruence|]. left. split; [reflexivity|].
+      rewrite <- Hrc1. exact Hp2.
+    - exists f'. split; [exact I1|]. split; [exact Hl1|]. split; [exact Hlm|]. right. auto.
   Qed.
 End Pairing.
-
-(* ------------------------------------------------------------------ *)
-(* the hypotheses of the theorems are satisfiable, on a non-trivial case:
-   banner, EHLO advertising PIPELINING, MAIL + two RCPT pipelined (the second
-   address is not encodable and raises before anything is queued), DATA flushes;
-   a five-line multi-reply script delivered byte by byte plus an unsolicited
-   extra reply that must stay unread. *)
-Definition ex_udigit (c : N) : bool := ((48 <=? c) && (c <=? 57))%N.
-Definition ex_uspace (c : N) : bool := (c =? 32)%N.
-Definition ex_script : list sreply :=
-  [(bs "220", [bs "mx ESMTP"]);
-   (bs "250", [bs "mx greets you"; bs "PIPELINING"; bs "8BITMIME"]);
-   (bs "250", [bs "2.1.0 sender ok"]);
-   (bs "550", [bs "5.1.1 no such"; bs "user"]);
-   (bs "354", [bs "go ahead"])].
-Definition ex_extra : bytes := bs "250 unsolicited".
-Definition ex_chunks : list bytes := map (fun b => [b]) (wire ex_script ++ ex_extra).
-Definition ex_ops : list op :=
-  [OBanner; OEhlo (bs "client"); OMail (bs "a@b") None None; ORcpt (bs "r1@c");
-   ORcpt [233%N; 64%N; 120%N]; OData].
-
-Example cl_example_hypotheses :
-  forallb wf_reply ex_script = true /\
-  forallb (fun c => match c with [] => false | _ => true end) ex_chunks = true /\
-  concat ex_chunks = (wire ex_script ++ ex_extra)%list /\
-  let '(st, results) := run ex_udigit ex_uspace ex_ops (init false [] ex_chunks) in
-  results = [RObj 0; RObj 1; RObj 2; RObj 3; RExn XEncode; RObj 4]%nat /\
-  (length (s_objs st) <= length ex_script)%nat /\
-  s_queue st = [] /\ s_rbuf st = [] /\ concat (s_chunks st) = ex_extra /\
-  map (fun o => (r_code (o_r o), get_message (o_r o))) (s_objs st) =
-    [(bs "220", bs "mx ESMTP"); (bs "250", bs "mx greets you"); (bs "250", bs "2.1.0 sender ok");
-     (bs "550", (bs "5.1.1 no such" ++ [13; 10]%N ++ bs "user")%list); (bs "354", bs "go ahead")].
-Proof. vm_compute. repeat split; reflexivity. Qed.
-
-(* LMTP: three recipients, the second rejected; end-of-data replies pair with the 1st and 3rd *)
-Definition ex_lscript : list sreply :=
-  [(bs "250", [bs "lmtp"; bs "PIPELINING"]); (bs "250", [bs "ok"]);
-   (bs "250", [bs "r1 ok"]); (bs "550", [bs "r2 no"]); (bs "250", [bs "r3 ok"]);
-   (bs "354", [bs "go"]); (bs "250", [bs "delivered r1"]); (bs "452", [bs "r3 over quota"])].
-Definition ex_lops : list op :=
-  [OLhlo (bs "client"); OMail (bs "a@b") None None; ORcpt (bs "r1"); ORcpt (bs "r2"); ORcpt (bs "r3"); OData].
-
-Example cl_example_lmtp :
-  forallb wf_reply ex_lscript = true /\
-  let '(st, results) := run ex_udigit ex_uspace ex_lops (init true [] [wire ex_lscript]) in
-  let '(st', res) := step ex_udigit ex_uspace OSendEmpty st in
-  (length (s_objs st') <= length ex_lscript)%nat /\
-  s_rcpttos st = [(bs "r1", 2); (bs "r2", 3); (bs "r3", 4)]%nat /\
-  res = RPairs [(bs "r1", 6); (bs "r3", 7)]%nat.
-Proof. vm_compute. repeat split; reflexivity. Qed.
-
-(* hypotheses of C10_reply_consumed_exactly on a concrete multi-line reply cut mid-line,
-   part of it already buffered *)
-Example cl_example_reply :
-  let code := bs "250" in let lines := [bs "first"; bs "second"] in
-  forallb is_digit code = true /\ forallb no_lf lines = true /\
-  (bs "250-fi" ++ concat [bs "rst"; [13; 10]%N; bs "250 second"; [13; 10; 50; 53]%N])%list =
-    (emit_lines code lines ++ bs "25")%list /\
-  recv_reply (bs "250-fi") [bs "rst"; [13; 10]%N; bs "250 second"; [13; 10; 50; 53]%N] =
-    ROk code (join CRLF lines) (bs "25") [].
-Proof. vm_compute. repeat split; reflexivity. Qed.
